@@ -912,8 +912,18 @@ def run(ctx):
         'RunSpec structures)',
         'tensor-network contraction (numpy/LAPACK/mpmath) only selects the coset; irrelevant to C02 by '
         'times_logical_keeps_syndrome; checked literally per decode (coset op)',
-        'SMWPM x2 and PlanarY internals are not modelled: explored through the verified monitor only',
+        'SMWPM x2: the recovery construction (graphs, clustering, paths) IS modelled and proved for any perfect '
+        'matchings (Props/C02/Smwpm.lean, SmwpmToric.lean); edge WEIGHTS and the matching algorithm are not (irrelevant to '
+        'C02). PlanarY internals are not modelled: explored through the verified monitor only',
     ]
+    # the two symmetry-matching decoders: recovery construction inside the model (Model/Smwpm.lean, Props/C02/Smwpm*.lean)
+    from qv import c02_smwpm
+    sm = c02_smwpm.cases(ctx)
+    ctx.explored['smwpm_model_tie'] = {
+        'evaluations': int(sm.get('decodes', 0)), 'exhaustive': False,
+        'rule': 'RotatedPlanarSMWPMDecoder / RotatedToricSMWPMDecoder: recorded graph nodes and edges, matchings, clusters, '
+                'cluster graph, both recovery stages and the final recovery compared exactly with Model/Smwpm.lean given '
+                'the recorded matchings; _path_operator over all pairs'}
     ctx.exhaustive = False
     return ctx.finish(RULE, search=search,
                       explanation='modelled constructions proved in Lean under named C15/C07 hypotheses and tied by exact '
